@@ -93,7 +93,8 @@ func (s *State) setHeap(key string, arr *Term) {
 		return
 	}
 	c := Const(freshName("H:"+key), arr.Sort)
-	s.Assume(Eq(c, arr))
+	defConsts.Store(c.Op, true)
+	s.PC = append(s.PC, Eq(c, arr))
 	s.Heap[key] = c
 }
 
